@@ -207,20 +207,16 @@ func main() {
 		}
 		return
 	}
-	out, err := hx.NewOut(a["ops"], a["obs"])
+	out, err := newFastOut(a["ops"], a["obs"])
 	if err != nil {
 		panic(err)
 	}
-	defer out.Close()
+	defer out.close()
 	thorough := a["tier"] == "thorough"
 	m := newImpl()
-	// out.Do writes a crash marker file per op; do that once per history ("new") only
 	do := func(line string) string {
-		if line == "new" {
-			return out.Do(line, func() string { return m.exec(line) })
-		}
 		res := hx.Guard(func() string { return m.exec(line) })
-		out.Emit(line, res)
+		out.emit(line, res)
 		return res
 	}
 	dist := map[string]int{}
@@ -325,26 +321,9 @@ func main() {
 			dist["val-"+k] += v
 		}
 	}
-	fmt.Println("STATS " + statsWith(out, dist))
-}
-
-func statsWith(out *hx.Out, dist map[string]int) string {
-	s := out.StatsJSON()
-	ks := make([]string, 0, len(dist))
-	for k := range dist {
-		ks = append(ks, k)
-	}
-	sort.Strings(ks)
-	var sb strings.Builder
-	sb.WriteString(",\"dist\":{")
-	for i, k := range ks {
-		if i > 0 {
-			sb.WriteByte(',')
-		}
-		sb.WriteString(strconv.Quote(k) + ":" + strconv.Itoa(dist[k]))
-	}
-	sb.WriteString("}}")
-	return s[:len(s)-1] + sb.String()
+	out.flush()
+	fmt.Println("STATS " + out.stats(dist))
 }
 
 var _ = ioutil.Discard
+var _ = strconv.Itoa
